@@ -904,8 +904,8 @@ Qed.
     connections survive it *)
 Lemma rt_listen_eqb_refl : forall a, rt_listen_eqb a a = true.
 Proof.
-  intros [p k t m g]. unfold rt_listen_eqb; simpl.
-  rewrite !Z.eqb_refl, !String.eqb_refl. destruct k; reflexivity.
+  intros [p k t m g h]. unfold rt_listen_eqb; simpl.
+  rewrite !Z.eqb_refl, !String.eqb_refl. destruct k, h; reflexivity.
 Qed.
 
 Theorem hot_update_no_restart : forall l h1 h2,
